@@ -118,6 +118,7 @@ func init() {
 			Harness{Fn: "ZZC07Seq", Quick: p("PROP", 6, "SEQ", 4), Thorough: p("PROP", 6, "SEQ", 6), Expect: []string{"seq-ok", "witness:end"}},
 			Harness{Fn: "ZZC07Num", Quick: p("PROP", 6), Thorough: p("PROP", 6), Expect: []string{"num-ok", "witness:end"}},
 			Harness{Fn: "ZZC07Str", Quick: p("PROP", 6, "S", 2), Thorough: p("PROP", 6, "S", 3), Expect: []string{"str-ok", "witness:end"}},
+			Harness{Fn: "ZZC06Multi", Quick: p("PROP", 6, "ML", 2), Thorough: p("PROP", 6, "ML", 3), Expect: []string{"multi-ok", "witness:end"}},
 		)},
 		Assumptions: []string{
 			"inputs: a corpus of 26 hand-written layouts of every syntax form (comments in every position, blank-line runs, multi-line array/map literals, tabs, \\r, missing final newline) and every generated program of the C10 family in a plain and a messy layout (double spaces, tabs, blank-line runs of 1..3, trailing and own-line comments)",
@@ -140,6 +141,7 @@ func init() {
 			Harness{Fn: "ZZC07Seq", Quick: p("PROP", 7, "SEQ", 4), Thorough: p("PROP", 7, "SEQ", 6), Expect: []string{"seq-ok", "witness:end"}},
 			Harness{Fn: "ZZC07Num", Quick: p("PROP", 7), Thorough: p("PROP", 7), Expect: []string{"num-ok", "witness:end"}},
 			Harness{Fn: "ZZC07Str", Quick: p("PROP", 7, "S", 2), Thorough: p("PROP", 7, "S", 3), Expect: []string{"str-ok", "witness:end"}},
+			Harness{Fn: "ZZC06Multi", Quick: p("PROP", 7, "ML", 2), Thorough: p("PROP", 7, "ML", 3), Expect: []string{"multi-ok", "witness:end"}},
 		), mainUnit([]string{"main/c18.go", "main/c18native.go", "main/c07m.go"},
 			Harness{Fn: "ZZC07Check", Expect: []string{"check-ok", "witness:end"}},
 			Harness{Fn: "ZZC07CheckFiles", Quick: p("FILES", 2), Thorough: p("FILES", 3), Expect: []string{"files-ok", "files-unformatted", "witness:end"}},
